@@ -64,8 +64,8 @@ def lemma_handle_new(ctx):
     cfg_arc = mk_arc(cfg, "Arc<config::Config>", "cfg_arc", rc=1)
     st.ghost["alias"] = z3.Bool("from_and_to_are_the_same_inode")
     # file-system consistency: a destination that designates the source's inode exists
-    ex_to = z3.Bool("exists_to_path")
-    st.ghost["fs"] = {("exists", "to_path"): ex_to}
+    from props.env import fs_fact
+    ex_to = fs_fact("exists", "to_path")
     st.pc.append(z3.Implies(st.ghost["alias"], ex_to))
     frm = RefV(Cell(OpaqueV("Path", "from_path")))
     to = RefV(Cell(OpaqueV("Path", "to_path")))
